@@ -314,6 +314,8 @@ def run(ctx: Ctx) -> None:
         okv = v is not None and CFG(v.node).every_path_to_exit_passes(calls_any({"_check_assign"}))
         ctx.check(bool(okv), "R-C24.4", f"{checker.qualname}.visit_{k}", v.where if v else checker.where, {"reaches__check_assign": bool(okv)},
                   f"`{k}` statements inside a dagger context are not rejected by the per-block pass")
+    from . import c24_derived
+    c24_derived.run(ctx, dom)  # bound-method values and function tensors carry the flags their call needs
     from . import c24_block
     if not c24_block.run(ctx, dom):
         _per_block_fallback(ctx, idx, checker, dom, D)
